@@ -14,8 +14,11 @@ Definition normal_edit_ok (e : edit line) : Prop :=
   | Replace => X e <> [] /\ Y e <> []
   | Emit => True
   end.
+(* ... and its line numbers are numbers an int holds with room to spare ([fits]: at most 2^61;
+   the formatter adds lengths to the starts, the reader adds 1 to what it parsed) *)
 Definition normal_chunk_ok (c : chunk line) : Prop :=
-  1 <= LStart c /\ 1 <= RStart c /\ Forall normal_edit_ok (edits c).
+  1 <= LStart c /\ 1 <= RStart c /\ Forall normal_edit_ok (edits c) /\
+  fits (LStart c + llen (consumed (edits c))) /\ fits (RStart c + llen (produced (edits c))).
 Definition normal_ok (cs : list (chunk line)) : Prop := Forall normal_chunk_ok cs.
 
 (* the lines an edit contributes to the text (the fields its operation uses) have no newline *)
@@ -83,17 +86,21 @@ Proof. apply map_length. Qed.
 (* ---- the loop over one chunk's edits ---- *)
 Lemma read_normal_edits es : forall lpos rpos rest acc fuel,
   1 <= lpos -> 1 <= rpos -> Forall normal_edit_ok es -> head_stops rest ->
+  fits (lpos + llen (consumed es)) -> fits (rpos + llen (produced es)) ->
   (fuel > length (normal_edits es lpos rpos ++ rest))%nat ->
   exists fuel', (fuel' > length rest)%nat /\
     read_normal_loop fuel (normal_edits es lpos rpos ++ rest) acc =
     read_normal_loop fuel' rest (acc ++ normal_norm_edits es lpos rpos).
 Proof.
-  induction es as [|e es IH]; intros lpos rpos rest acc fuel Hl Hr Hok Hrest Hfuel.
+  induction es as [|e es IH]; intros lpos rpos rest acc fuel Hl Hr Hok Hrest Hfl Hfr Hfuel.
   - exists fuel. cbn [normal_edits normal_norm_edits app] in *. rewrite app_nil_r. auto.
   - inversion Hok as [|? ? He Hok']; subst.
+    rewrite consumed_cons, llen_app in Hfl. rewrite produced_cons, llen_app in Hfr.
+    pose proof (llen_nonneg (consumed es)) as Hc0. pose proof (llen_nonneg (produced es)) as Hp0.
     revert Hfuel. cbn [normal_edits normal_norm_edits].
     unfold normal_edit_ok in He.
-    destruct (eop e) eqn:Eop; intros Hfuel.
+    destruct (eop e) eqn:Eop; intros Hfuel; cbn iota in Hfl, Hfr;
+      change (llen (@nil line)) with 0 in Hfl, Hfr.
     + (* Drop *)
       unfold normal_drop_lo, normal_drop_hi, normal_drop_target, normal_drop_lpos in *.
       pose proof (llen_pos _ He) as Hn.
@@ -105,25 +112,25 @@ Proof.
       replace (is_nil (dspan lpos (lpos + llen (X e)) ++ 100%N :: itoa (rpos - 1))) with false
         by (destruct (dspan lpos (lpos + llen (X e))); reflexivity).
       rewrite split_cmd_d by (first [apply dspan_span | apply itoa_span]).
-      rewrite read_normal_range_dspan by lia.
-      rewrite read_normal_range_r_itoa.
+      rewrite read_normal_range_dspan by (first [lia | unfold fits in *; lia]).
+      rewrite read_normal_range_r_itoa by (unfold fits in *; lia).
       rewrite read_edit_lt. rewrite read_edit_stop by exact Htail. cbn [app].
       unfold read_normal_del_rlo, read_normal_want_add, read_normal_want_del, read_normal_chunk_lstart, read_normal_chunk_lend, read_normal_chunk_rstart, read_normal_chunk_rend.
       cbn [andb negb].
+      replace (rpos - 1 + 1) with rpos by lia. unwrap.
       replace (llen (X e) =? lpos + llen (X e) - lpos) with true by (symmetry; apply Z.eqb_eq; lia).
       cbn [negb andb]. rewrite andb_false_r. cbn [andb].
-      replace (rpos - 1 + 1) with rpos by lia.
       assert (Hf : (f > length tail)%nat).
       { unfold tail. cbn [app length] in Hfuel. rewrite !app_length in Hfuel.
         rewrite app_length. unfold write_lines in Hfuel. rewrite ?map_length in Hfuel. lia. }
       destruct (IH (lpos + llen (X e)) rpos rest
                    (acc ++ [mkChunk [mkEdit Drop (X e) []] lpos (lpos + llen (X e)) rpos rpos]) f
-                   ltac:(lia) Hr Hok' Hrest Hf) as (f' & Hf' & E).
+                   ltac:(lia) Hr Hok' Hrest ltac:(unfold fits in *; lia) ltac:(unfold fits in *; lia) Hf) as (f' & Hf' & E).
       exists f'. split; [exact Hf'|]. fold tail in E. rewrite E. rewrite <- app_assoc. reflexivity.
     + (* Emit *)
       unfold normal_emit_lpos, normal_emit_rpos in *.
       pose proof (llen_nonneg (X e)).
-      apply IH; try assumption; lia.
+      apply IH; try assumption; first [lia | unfold fits in *; lia].
     + (* Copy *)
       unfold normal_copy_target, normal_copy_lo, normal_copy_hi, normal_copy_rpos in *.
       pose proof (llen_pos _ He) as Hm.
@@ -135,20 +142,20 @@ Proof.
       replace (is_nil (itoa (lpos - 1) ++ 97%N :: dspan rpos (rpos + llen (Y e)))) with false
         by (destruct (itoa (lpos - 1)); reflexivity).
       rewrite split_cmd_a by apply itoa_span.
-      rewrite read_normal_range_itoa.
-      rewrite read_normal_range_r_dspan by lia.
+      rewrite read_normal_range_itoa by (unfold fits in *; lia).
+      rewrite read_normal_range_r_dspan by (first [lia | unfold fits in *; lia]).
       rewrite (read_edit_gt (Y e) tail [] [] false) by (left; reflexivity).
       rewrite read_edit_stop by exact Htail. cbn [app].
       unfold read_normal_add_llo, read_normal_want_add, read_normal_want_del, read_normal_chunk_lstart, read_normal_chunk_lend, read_normal_chunk_rstart, read_normal_chunk_rend.
+      replace (lpos - 1 + 1) with lpos by lia. unwrap.
       replace (llen (Y e) =? rpos + llen (Y e) - rpos) with true by (symmetry; apply Z.eqb_eq; lia).
       cbn [negb andb]. rewrite andb_false_r. cbn [andb].
-      replace (lpos - 1 + 1) with lpos by lia.
       assert (Hf : (f > length tail)%nat).
       { unfold tail. cbn [app length] in Hfuel. rewrite !app_length in Hfuel.
         rewrite app_length. unfold write_lines in Hfuel. rewrite ?map_length in Hfuel. lia. }
       destruct (IH lpos (rpos + llen (Y e)) rest
                    (acc ++ [mkChunk [mkEdit Copy [] (Y e)] lpos lpos rpos (rpos + llen (Y e))]) f
-                   Hl ltac:(lia) Hok' Hrest Hf) as (f' & Hf' & E).
+                   Hl ltac:(lia) Hok' Hrest ltac:(unfold fits in *; lia) ltac:(unfold fits in *; lia) Hf) as (f' & Hf' & E).
       exists f'. split; [exact Hf'|]. fold tail in E. rewrite E. rewrite <- app_assoc. reflexivity.
     + (* Replace *)
       unfold normal_repl_llo, normal_repl_lhi, normal_repl_rlo, normal_repl_rhi,
@@ -163,12 +170,13 @@ Proof.
       replace (is_nil (dspan lpos (lpos + llen (X e)) ++ 99%N :: dspan rpos (rpos + llen (Y e)))) with false
         by (destruct (dspan lpos (lpos + llen (X e))); reflexivity).
       rewrite split_cmd_c by apply dspan_span.
-      rewrite read_normal_range_dspan by lia.
-      rewrite read_normal_range_r_dspan by lia.
+      rewrite read_normal_range_dspan by (first [lia | unfold fits in *; lia]).
+      rewrite read_normal_range_r_dspan by (first [lia | unfold fits in *; lia]).
       rewrite read_edit_lt. rewrite read_edit_sep.
       rewrite (read_edit_gt (Y e) tail ([] ++ X e) [] true) by (right; reflexivity).
       rewrite read_edit_stop by exact Htail. cbn [app].
       unfold read_normal_want_add, read_normal_want_del, read_normal_chunk_lstart, read_normal_chunk_lend, read_normal_chunk_rstart, read_normal_chunk_rend.
+      unwrap.
       replace (llen (Y e) =? rpos + llen (Y e) - rpos) with true by (symmetry; apply Z.eqb_eq; lia).
       replace (llen (X e) =? lpos + llen (X e) - lpos) with true by (symmetry; apply Z.eqb_eq; lia).
       cbn [negb andb].
@@ -177,7 +185,7 @@ Proof.
         rewrite !app_length in Hfuel. rewrite app_length. lia. }
       destruct (IH (lpos + llen (X e)) (rpos + llen (Y e)) rest
                    (acc ++ [mkChunk [mkEdit Replace (X e) (Y e)] lpos (lpos + llen (X e)) rpos (rpos + llen (Y e))]) f
-                   ltac:(lia) ltac:(lia) Hok' Hrest Hf) as (f' & Hf' & E).
+                   ltac:(lia) ltac:(lia) Hok' Hrest ltac:(unfold fits in *; lia) ltac:(unfold fits in *; lia) Hf) as (f' & Hf' & E).
       exists f'. split; [exact Hf'|]. fold tail in E. rewrite E. rewrite <- app_assoc. reflexivity.
 Qed.
 
@@ -194,13 +202,13 @@ Lemma read_normal_chunks cs : forall acc fuel,
 Proof.
   induction cs as [|c cs IH]; intros acc fuel Hok Hfuel.
   - destruct fuel; [cbn in Hfuel; lia|]. cbn. rewrite app_nil_r. reflexivity.
-  - inversion Hok as [|? ? (Hl & Hr & He) Hok']; subst.
+  - inversion Hok as [|? ? (Hl & Hr & He & Hfl & Hfr) Hok']; subst.
     unfold normal_lines, normal_chunk_lines, normal_lpos_init, normal_rpos_init, normal_normalise in *. cbn [flat_map] in *.
     assert (Hh : head_stops (flat_map (fun c => normal_edits (edits c) (LStart c) (RStart c)) cs)).
     { pose proof (normal_lines_head cs [] I) as H. rewrite app_nil_r in H. exact H. }
     destruct (read_normal_edits (edits c) (LStart c) (RStart c)
                 (flat_map (fun c => normal_edits (edits c) (LStart c) (RStart c)) cs) acc fuel
-                Hl Hr He Hh Hfuel)
+                Hl Hr He Hh Hfl Hfr Hfuel)
       as (f' & Hf' & E).
     rewrite E. rewrite IH by assumption. rewrite <- app_assoc. reflexivity.
 Qed.
